@@ -27,6 +27,38 @@ claim(
     "DESIGN.md §5.2 C17",
 )
 
+claim(
+    "C44",
+    "Lean theorems C44_nextPow2 (least power of two >= v for 1 <= v <= 2^63), C44_log2const64/32 (= floor log2 for "
+    "every non-zero input), C44_alignToCacheLine and C44_alignedMalloc (aligned result, recovery word inside the "
+    "allocation, for every power-of-two alignment <= 2^16) are proved over BitVec 64/32 models that transcribe the C++ "
+    "bit operations one to one, kernel-checked without native axioms. The tie runs the compiled functions against the "
+    "model on structured and random inputs; the intrinsic-based log2/countTrailingZeros/countSetBits are compared with "
+    "the Lean mathematical specification (thorough: all 2^32 32-bit inputs against a reference).",
+    "Trusted: Lean kernel; hand-written model (checked on the explored inputs only); bsr/ctz/popcount intrinsics are "
+    "compared, not proved; malloc's 16-byte alignment.",
+    "Lean 4 proof (bit-level induction via testBit windows) + differential correspondence",
+    "DESIGN.md §5.6 C44",
+)
+
+claim(
+    "C21",
+    "The Linux CompletionEventImpl/CompletionEvent/Latch are modelled at one action per atomic or futex operation "
+    "(Model/Event.lean) in a generic interleaving semantics (Core/Conc.lean: any number of threads, any schedule, "
+    "futex wake victims chosen arbitrarily, spurious wake-ups, time-outs). Proved for every reachable state: once the "
+    "latch count is zero / the event is completed, either nobody is parked or a store+wake-all is still pending "
+    "(C21_*_no_lost_wakeup), hence nobody stays blocked once the notifiers returned (C21_*_quiescent); waits return "
+    "only after observing the completed value (C21_*_never_early) and the completed value is stable. The same exec "
+    "function accepts or rejects traces of the real code recorded under the deterministic scheduler (field, operation, "
+    "operand, observed value, woken set and return value of every call must match).",
+    "Trusted: Lean kernel; dsched (our TSan-interface runtime and futex model) to report what the code did; sequential "
+    "consistency (memory orders are C10's subject); thread count < 2^31; reset() racing with waiters is outside the "
+    "class contract and outside the theorems. The pre-repair code's lost wake-up is kept as a proved witness "
+    "(C21_old_count_down_loses_wakeup).",
+    "Lean 4 proof (inductive invariant over an interleaving semantics) + trace validation under a deterministic scheduler",
+    "DESIGN.md §5.3 C21",
+)
+
 ALL = ["C%02d" % i for i in range(1, 49)]
 for _p in ALL:
     if _p not in CLAIMED:
